@@ -259,7 +259,7 @@ def run_case(case, ctx):
 
 def run(ctx):
     rec = ctx.rec
-    n = ctx.pick(2000, 100000)
+    n = ctx.pick(8000, 150000)
     for i in range(n):
         if not ctx.mine(i):
             continue
